@@ -266,6 +266,13 @@ def concatGet (sizes : List Nat) (idx : Nat) : Nat × Nat :=
   let d := bisectRight cum idx
   if d = 0 then (0, idx) else (d, idx - cum.getD (d - 1) 0)
 
+/-- `_InterleavedConcatDataset.__getitem__` incl. the negative-index branch (`none` = ValueError) -/
+def concatGetInt (sizes : List Nat) (idx : Int) : Option (Nat × Nat) :=
+  let total : Nat := (cumsum 0 sizes).getLastD 0
+  if idx < 0 then
+    if -idx > (total : Int) then none else some (concatGet sizes ((total : Int) + idx).toNat)
+  else some (concatGet sizes idx.toNat)
+
 /-- all data-source sizes in the order of `self.dataset` -/
 def dsSizes (a : Args) : List Nat := a.mainDsLen :: a.configs.map (·.dsLen)
 
